@@ -6,7 +6,9 @@ CHECK = {
     "level": "model_checking",
     "technique": "stateless model checking of the real step scheduler (machine-instrumented at check time) under a cooperative scheduler with virtual time: all non-preemptive schedules of every program of a finite family, preemption-bounded schedules of a sharp list",
     "rule": "",
-    "harnesses": [H("e1", sub="C15", **_E1)],
+    "harnesses": [H("e1", variant="free", build_only=True, libs=["vrt", "vsync", "vtime", "vctx"],
+                    inpkg={"internal/agent": ["e1/zz_verif_e1_agent.go"], "internal/dag/scheduler": ["e1/zz_verif_e1_sched.go"]}),
+                  H("e1", sub="C15", **_E1)],
     "assumptions": [],
 }
 TEXT = {"engine": "E1-coop", "design_ref": "DESIGN.md §3.1, §5 C15",
